@@ -4,8 +4,8 @@
    executorMergeObject gives the object the reference gives for the whole selection, up to the
    order of its keys. *)
 From Coq Require Import String List Bool Arith Lia Permutation.
-From GW Require Import Base.Res Base.GoStr Base.Json Gql.Syntax Gql.Spec Gw.Locate Gw.Plan Gw.Points
-     Proofs.StitchSound.
+From GW Require Import Base.Res Base.GoStr Base.Json Gql.Syntax Gql.Spec Gw.Locate Gw.Plan Gw.Points.
+From GW Require Import Proofs.StitchSound.
 Import ListNotations.
 Open Scope string_scope.
 Open Scope list_scope.
@@ -73,21 +73,21 @@ Section Transparent.
   Variable w : world.
   Variable frags : list fragdef.
   Variable vars : list (string * json).
-  Hypothesis world_atomic : forall o rt c, atomic_f (resolve w vars o rt c).
+  Hypothesis world_atomic : atomic_world w vars.
 
   Fixpoint merge_all (acc : json) (vs : list json) : json :=
     match vs with [] => acc | v :: r => merge_all (merge_value (Some acc) v) r end.
 
-  Lemma merge_groups fuel o rt : forall (gs : list (list sel)) pre,
+  Lemma merge_groups fuel o rt : inw w o -> forall (gs : list (list sel)) pre,
     good (pre ++ concat gs) ->
     merge_all (exec fuel w frags vars o rt pre) (map (exec fuel w frags vars o rt) gs) =
     exec fuel w frags vars o rt (pre ++ concat gs).
   Proof.
-    induction gs as [|g r IH]; intros pre G; cbn [map merge_all concat].
+    intros Hin. induction gs as [|g r IH]; intros pre G; cbn [map merge_all concat].
     - rewrite app_nil_r. reflexivity.
     - cbn [concat] in G. rewrite app_assoc in G. pose proof G as G'. apply good_app in G'. destruct G' as [Gpg _].
       apply good_app in Gpg. destruct Gpg as [Gp [Gg C]].
-      rewrite <- (stitch_sound w frags vars world_atomic fuel o rt pre g Gp Gg C).
+      rewrite <- (stitch_sound w frags vars world_atomic fuel o rt pre g Hin Gp Gg C).
       rewrite (IH _ G). rewrite app_assoc. reflexivity.
   Qed.
 
@@ -109,18 +109,18 @@ Section Transparent.
      the groups gives the answer to the groups' fields together; and that is the reference answer
      to the selection with its keys in another order. *)
   Theorem grouping_is_transparent prios urls ptype ploc fuel o rt sels gs :
-    good sels -> group prios urls ptype ploc sels [] = Ok gs ->
+    inw w o -> good sels -> group prios urls ptype ploc sels [] = Ok gs ->
     Permutation (all_sels gs) sels /\
     merge_all (JObj []) (map (fun g => exec (S (S fuel)) w frags vars o rt (snd g)) gs) =
       exec (S (S fuel)) w frags vars o rt (all_sels gs) /\
     exists m m', exec (S (S fuel)) w frags vars o rt (all_sels gs) = JObj m /\
                  exec (S (S fuel)) w frags vars o rt sels = JObj m' /\ Permutation m m'.
   Proof.
-    intros G Hg. inversion G as [? P N Sg]; subst.
+    intros Hin G Hg. inversion G as [? P N Sg]; subst.
     pose proof (group_perm prios urls ptype ploc sels [] gs P Hg) as Hperm. cbn [all_sels map concat app] in Hperm.
     assert (Ga : good (all_sels gs)) by (eapply good_perm; [symmetry; exact Hperm|exact G]).
     split; [exact Hperm|]. split.
-    - pose proof (merge_groups (S (S fuel)) o rt (map snd gs) [] Ga) as H.
+    - pose proof (merge_groups (S (S fuel)) o rt Hin (map snd gs) [] Ga) as H.
       cbn [app] in H. rewrite map_map in H. unfold all_sels.
       replace (exec (S (S fuel)) w frags vars o rt []) with (JObj []) in H by reflexivity. exact H.
     - exists (map (answer_of fuel o rt) (all_sels gs)), (map (answer_of fuel o rt) sels).
@@ -135,14 +135,14 @@ Example grouping_example :
   let sels := [Field "" "name" [] [] []; Field "" "photo" [] [] []; Field "" "age" [] [] []] in
   let o := {| b_id := "u1"; b_type := "User"; b_fields := [("name", FScalar (JStr "ann")); ("photo", FScalar (JStr "p.png")); ("age", FScalar (JNum "7"))] |} in
   let w := {| w_objs := [o]; w_roots := []; w_possible := []; w_ftypes := [] |} in
-  good sels /\
+  atomic_world w [] /\ inw w (Some o) /\ good sels /\
   group [] urls "User" "A" sels [] = Ok [("A", [Field "" "name" [] [] []; Field "" "age" [] [] []]); ("B", [Field "" "photo" [] [] []])] /\
   merge_all (JObj []) [exec 3 w [] [] (Some o) "User" [Field "" "name" [] [] []; Field "" "age" [] [] []];
                                exec 3 w [] [] (Some o) "User" [Field "" "photo" [] [] []]] =
     JObj [("name", JStr "ann"); ("age", JNum "7"); ("photo", JStr "p.png")] /\
   exec 3 w [] [] (Some o) "User" sels = JObj [("name", JStr "ann"); ("photo", JStr "p.png"); ("age", JNum "7")].
 Proof.
-  cbv zeta. split; [|split; [|split]]; try (vm_compute; reflexivity).
+  cbv zeta. split; [apply atomic_world_intro; cbn; repeat constructor|]. split; [left; reflexivity|]. split; [|split; [|split]]; try (vm_compute; reflexivity).
   constructor; [repeat constructor| |repeat constructor].
   cbn. repeat constructor; cbn; intuition discriminate.
 Qed.
